@@ -1,7 +1,13 @@
 /* Out-of-tree contracts for qsopt_ex/lib.c (mpq instance).  Each contract_<fn> has the signature
  * of mpq_<fn> and is attached with  --enforce-contract mpq_<fn>/contract_<fn>  (or
  * --replace-call-with-contract).  Postconditions come from the property statements
- * (properties.jsonl C06 / C07); requires and frames come from the code and its call sites. */
+ * (properties.jsonl C06 / C07); requires and frames come from the code and its call sites.
+ *
+ * Conventions: qsv_g.gc / qsv_g.gr are ghost (arbitrary) column / row indices; a postcondition
+ * stated at a ghost index holds for every index.  Numbers are compared through the GMP model's
+ * payload (NUMEQ).  "sinfo" (presolve scratch copy) and "rA" (row-major scratch copy) are internal
+ * caches that are not observable through the API; edits drop them.
+ */
 #ifndef QSV_LIB_CONTRACTS_H
 #define QSV_LIB_CONTRACTS_H
 #include "wf.h"
@@ -10,12 +16,16 @@
 #define VALID_ROW(lp, r) (0 <= (r) && (r) < (lp)->O->nrows)
 #define VALID_LU(c) ((c) == 'L' || (c) == 'U' || (c) == 'B')
 #define COLOF(lp, j) ((lp)->O->structmap[j])
+#define NUMEQ(a, b) (NUMV(a) == NUMV(b) && DENV(a) == DENV(b))
+#define LP_OK(lp) ((lp) != 0 && WF_LPDATA_SIZES((lp)->O))
+#define GC_OK(lp) (0 <= qsv_g.gc && qsv_g.gc < (lp)->O->nstruct && WF_STRUCT_AT((lp)->O, qsv_g.gc))
+#define GR_OK(lp) (0 <= qsv_g.gr && qsv_g.gr < (lp)->O->nrows)
 
-/* C07: bad index or bad selector => non-zero, nothing assigned (frame: conditional assigns).
- * C06: 'L' sets lower only, 'U' upper only, 'B' both, to exactly bnd.
- * sinfo (the presolve scratch copy, not observable through the API) is dropped on a valid index. */
+/* ------------------------------------------------------------------ bounds */
+/* C07: bad index or bad selector => non-zero, nothing assigned (conditional assigns = frame).
+ * C06: 'L' sets lower only, 'U' upper only, 'B' both, to exactly bnd. */
 int contract_ILLlib_chgbnd(mpq_lpinfo *lp, int indx, int lu, const mpq_t bnd)
-__CPROVER_requires(lp != 0 && WF_LPDATA_SIZES(lp->O))
+__CPROVER_requires(LP_OK(lp))
 __CPROVER_requires(VALID_COL(lp, indx) ==> WF_STRUCT_AT(lp->O, indx))
 __CPROVER_assigns(VALID_COL(lp, indx): lp->O->sinfo, g_sinfo_freed)
 __CPROVER_assigns(VALID_COL(lp, indx) && (lu == 'L' || lu == 'B'): lp->O->lower[COLOF(lp, indx)])
@@ -24,9 +34,91 @@ __CPROVER_frees(VALID_COL(lp, indx): lp->O->sinfo)
 __CPROVER_ensures(!VALID_COL(lp, indx) ==> __CPROVER_return_value != 0)
 __CPROVER_ensures(!VALID_LU(lu) ==> __CPROVER_return_value != 0)
 __CPROVER_ensures((VALID_COL(lp, indx) && VALID_LU(lu)) ==> __CPROVER_return_value == 0)
-__CPROVER_ensures((__CPROVER_return_value == 0 && (lu == 'L' || lu == 'B')) ==>
-	(NUMV(lp->O->lower[COLOF(lp, indx)]) == NUMV(bnd) && DENV(lp->O->lower[COLOF(lp, indx)]) == DENV(bnd)))
-__CPROVER_ensures((__CPROVER_return_value == 0 && (lu == 'U' || lu == 'B')) ==>
-	(NUMV(lp->O->upper[COLOF(lp, indx)]) == NUMV(bnd) && DENV(lp->O->upper[COLOF(lp, indx)]) == DENV(bnd)))
+__CPROVER_ensures((__CPROVER_return_value == 0 && (lu == 'L' || lu == 'B')) ==> NUMEQ(lp->O->lower[COLOF(lp, indx)], bnd))
+__CPROVER_ensures((__CPROVER_return_value == 0 && (lu == 'U' || lu == 'B')) ==> NUMEQ(lp->O->upper[COLOF(lp, indx)], bnd))
+;
+
+/* query: only 'L' and 'U' are meaningful selectors for a single value */
+int contract_ILLlib_getbnd(mpq_lpinfo *lp, int indx, int lu, mpq_t *bnd)
+__CPROVER_requires(LP_OK(lp) && bnd != 0)
+__CPROVER_requires(VALID_COL(lp, indx) ==> WF_STRUCT_AT(lp->O, indx))
+__CPROVER_assigns(VALID_COL(lp, indx) && (lu == 'L' || lu == 'U'): *bnd)
+__CPROVER_ensures(!VALID_COL(lp, indx) ==> __CPROVER_return_value != 0)
+__CPROVER_ensures((lu != 'L' && lu != 'U') ==> __CPROVER_return_value != 0)
+__CPROVER_ensures((VALID_COL(lp, indx) && lu == 'L') ==> (__CPROVER_return_value == 0 && NUMEQ(*bnd, lp->O->lower[COLOF(lp, indx)])))
+__CPROVER_ensures((VALID_COL(lp, indx) && lu == 'U') ==> (__CPROVER_return_value == 0 && NUMEQ(*bnd, lp->O->upper[COLOF(lp, indx)])))
+;
+
+/* ------------------------------------------------------------------ objective / rhs */
+int contract_ILLlib_chgobj(mpq_lpinfo *lp, int indx, mpq_t coef)
+__CPROVER_requires(LP_OK(lp))
+__CPROVER_requires(VALID_COL(lp, indx) ==> WF_STRUCT_AT(lp->O, indx))
+__CPROVER_assigns(VALID_COL(lp, indx): lp->O->sinfo, g_sinfo_freed, lp->O->obj[COLOF(lp, indx)])
+__CPROVER_frees(VALID_COL(lp, indx): lp->O->sinfo)
+__CPROVER_ensures(VALID_COL(lp, indx) <==> __CPROVER_return_value == 0)
+__CPROVER_ensures(__CPROVER_return_value == 0 ==> NUMEQ(lp->O->obj[COLOF(lp, indx)], coef))
+;
+
+int contract_ILLlib_chgrhs(mpq_lpinfo *lp, int indx, mpq_t coef)
+__CPROVER_requires(LP_OK(lp))
+__CPROVER_assigns(VALID_ROW(lp, indx): lp->O->sinfo, g_sinfo_freed, lp->O->rhs[indx])
+__CPROVER_frees(VALID_ROW(lp, indx): lp->O->sinfo)
+__CPROVER_ensures(VALID_ROW(lp, indx) <==> __CPROVER_return_value == 0)
+__CPROVER_ensures(__CPROVER_return_value == 0 ==> NUMEQ(lp->O->rhs[indx], coef))
+;
+
+/* all rows: rhs[gr] is the stored right-hand side of row gr; frame = the output array */
+int contract_ILLlib_getrhs(mpq_lpinfo *lp, mpq_t *rhs)
+__CPROVER_requires(LP_OK(lp) && GR_OK(lp))
+__CPROVER_assigns(__CPROVER_object_whole(rhs))
+__CPROVER_ensures(__CPROVER_return_value == 0 && NUMEQ(rhs[qsv_g.gr], lp->O->rhs[qsv_g.gr]))
+;
+
+int contract_ILLlib_getsenses(mpq_lpinfo *lp, char *senses)
+__CPROVER_requires(LP_OK(lp) && GR_OK(lp))
+__CPROVER_assigns(__CPROVER_object_whole(senses))
+__CPROVER_ensures(__CPROVER_return_value == 0 && senses[qsv_g.gr] == lp->O->sense[qsv_g.gr])
+;
+
+int contract_ILLlib_getintflags(mpq_lpinfo *lp, int *intflags)
+__CPROVER_requires(LP_OK(lp) && 0 <= qsv_g.gc && qsv_g.gc < lp->O->nstruct)
+__CPROVER_assigns(__CPROVER_object_whole(intflags))
+__CPROVER_ensures(__CPROVER_return_value == 0)
+__CPROVER_ensures(intflags[qsv_g.gc] == ((lp->O->intmarker != 0 && lp->O->intmarker[qsv_g.gc] != 0) ? 1 : 0))
+;
+
+/* C06 query through the column map (all columns; ghost column gc) */
+int contract_ILLlib_getobj(mpq_lpinfo *lp, mpq_t *obj)
+__CPROVER_requires(LP_OK(lp) && GC_OK(lp))
+__CPROVER_assigns(__CPROVER_object_whole(obj))
+__CPROVER_ensures(__CPROVER_return_value == 0)
+__CPROVER_ensures(NUMEQ(obj[qsv_g.gc], lp->O->obj[COLOF(lp, qsv_g.gc)]))
+;
+
+int contract_ILLlib_getbnds(mpq_lpinfo *lp, mpq_t *lower, mpq_t *upper)
+__CPROVER_requires(LP_OK(lp) && GC_OK(lp))
+__CPROVER_assigns(lower != 0: __CPROVER_object_whole(lower))
+__CPROVER_assigns(upper != 0: __CPROVER_object_whole(upper))
+__CPROVER_ensures(__CPROVER_return_value == 0)
+__CPROVER_ensures(lower != 0 ==> NUMEQ(lower[qsv_g.gc], lp->O->lower[COLOF(lp, qsv_g.gc)]))
+__CPROVER_ensures(upper != 0 ==> NUMEQ(upper[qsv_g.gc], lp->O->upper[COLOF(lp, qsv_g.gc)]))
+;
+
+/* list queries: position gk of the list (ghost), 0 <= gk < num.
+ * C07: a list with an out-of-range entry is rejected (non-zero). */
+int contract_ILLlib_getobj_list(mpq_lpinfo *lp, int num, int *collist, mpq_t *obj)
+__CPROVER_requires(LP_OK(lp) && 0 <= num && num <= QSV_CAP && 0 <= qsv_g.gk && qsv_g.gk < num)
+__CPROVER_assigns(__CPROVER_object_whole(obj))
+__CPROVER_ensures(!VALID_COL(lp, collist[qsv_g.gk]) ==> __CPROVER_return_value != 0)
+__CPROVER_ensures(__CPROVER_return_value == 0 ==> NUMEQ(obj[qsv_g.gk], lp->O->obj[COLOF(lp, collist[qsv_g.gk])]))
+;
+
+int contract_ILLlib_getbnds_list(mpq_lpinfo *lp, int num, int *collist, mpq_t *lower, mpq_t *upper)
+__CPROVER_requires(LP_OK(lp) && 0 <= num && num <= QSV_CAP && 0 <= qsv_g.gk && qsv_g.gk < num)
+__CPROVER_assigns(lower != 0: __CPROVER_object_whole(lower))
+__CPROVER_assigns(upper != 0: __CPROVER_object_whole(upper))
+__CPROVER_ensures(!VALID_COL(lp, collist[qsv_g.gk]) ==> __CPROVER_return_value != 0)
+__CPROVER_ensures((__CPROVER_return_value == 0 && lower != 0) ==> NUMEQ(lower[qsv_g.gk], lp->O->lower[COLOF(lp, collist[qsv_g.gk])]))
+__CPROVER_ensures((__CPROVER_return_value == 0 && upper != 0) ==> NUMEQ(upper[qsv_g.gk], lp->O->upper[COLOF(lp, collist[qsv_g.gk])]))
 ;
 #endif
